@@ -120,8 +120,9 @@ def step (s : St) (fs : List String) : St × String :=
       match removeFilteredReturnsEffects l idx vals with
       | .error e => (s, answer (showErr e) l none)
       | .ok (l', eff) =>
-        let a' := if vals.isEmpty then a else (Spec.removeFiltered a idx vals).1
-        let seff := if vals.isEmpty then [] else Spec.getFiltered (specOrder pi a) idx vals
+        -- the removal selects what the filtered read selects (no values: every rule)
+        let a' := (Spec.removeFiltered a idx vals).1
+        let seff := Spec.getFiltered (specOrder pi a) idx vals
         let sp := if inRange && allNumeric pi a then some (encRules seff, specOrder pi a') else none
         ({ pol := put s.pol k l', arr := put s.arr k (if inRange then a' else l') }, answer (encRules eff) l' sp)
     | _, _, _ => (s, "bad-op")
@@ -161,7 +162,12 @@ def step (s : St) (fs : List String) : St × String :=
       match updateMany pt l os ns with
       | .error e => (s, answer (showErr e) l none)
       | .ok (l', b) =>
-        ({ pol := put s.pol k l', arr := put s.arr k l' }, answer (encBool b) l' none)
+        -- without a priority token the batch update is specified: all pairs at once, in place, or nothing
+        -- (`Props/C06u.updateMany_refines`); with one the call may raise and the order is C07's business
+        let sp := match pt with
+          | none => let (a', sb) := Spec.updateMany (get s.arr k) os ns; some (encBool sb, a')
+          | some _ => none
+        ({ pol := put s.pol k l', arr := put s.arr k l' }, answer (encBool b) l' sp)
     | _, _, _ => (s, "bad-op")
   | ["has", k, rule] =>
     match decRule rule with
